@@ -28,9 +28,10 @@ from py2lean import Unsupported, indent, mangle, lean_field, EXC_NAMES
 
 # ------------------------------------------------------------------------------------------------ types
 INT, BOOL, UNIT, SEQ, FILE, OPAQUE, FD = ('Int',), ('Bool',), ('Unit',), ('Seq',), ('File',), ('Opaque',), ('Fd',)
+CFILE, EBYTES = ('CFile',), ('EBytes',)     # the codec file of SpooledStringIO; utf-8 encoded text (code units)
 PARTS, FILES = ('List', SEQ), ('List', FILE)
 _ATOMS = {'Int': INT, 'Bool': BOOL, 'None': UNIT, 'Unit': UNIT, 'Bytes': SEQ, 'Seq': SEQ, 'File': FILE,
-          'Opaque': OPAQUE, 'Fd': FD}
+          'Opaque': OPAQUE, 'Fd': FD, 'CFile': CFILE, 'EBytes': EBYTES, 'Str': SEQ}
 
 
 def parse_type(text):
@@ -58,6 +59,10 @@ def show_type(t, unit, top=True):
         r = 'PyRtC18.FileObj %s' % unit
     elif k == 'Fd':
         r = 'PyRtC18.FileObj.Fd'
+    elif k == 'CFile':
+        r = 'PyRtC18.CFile'
+    elif k == 'EBytes':
+        r = 'List C18.CU'
     elif k in ('Option', 'List'):
         r = '%s %s' % (k, show_type(t[1], unit, False))
     else:
@@ -73,9 +78,9 @@ def default_of(t, unit):
         return 'false'
     if k in ('Unit', 'Opaque'):
         return '()'
-    if k in ('Seq', 'List'):
+    if k in ('Seq', 'List', 'EBytes'):
         return '([] : %s)' % show_type(t, unit)
-    if k in ('File', 'Fd'):
+    if k in ('File', 'Fd', 'CFile'):
         return '(default : %s)' % show_type(t, unit)
     if k == 'Option':
         return '(none : %s)' % show_type(t, unit)
@@ -98,6 +103,15 @@ FILE_OPS = {
     'fileno': [((), FD, 'PyRtC18.FileObj.fileno', False)],
 }
 FILE_ATTRS = {'closed': (BOOL, 'PyRtC18.FileObj.isClosed')}
+# the codec file `codecs.EncodedFile(stream, data_encoding='utf-8')` (PyRtC18.CFile = the hand model's stream + Reader)
+CFILE_OPS = {
+    'tell': [((), INT, 'PyRtC18.CFile.tell', False)],
+    'write': [((EBYTES,), UNIT, 'PyRtC18.CFile.write', True)],
+    'seek': [((INT,), UNIT, 'PyRtC18.CFile.seek', True)],
+    'getvalue': [((), EBYTES, 'PyRtC18.CFile.getvalue', False)],
+    'close': [((), UNIT, 'PyRtC18.CFile.close', True)],
+}
+CFILE_ATTRS = {'closed': (BOOL, 'PyRtC18.CFile.isClosed')}
 # module-level names whose value is a constant of the standard library
 CONSTS = {('os', 'SEEK_SET'): 0, ('os', 'SEEK_CUR'): 1, ('os', 'SEEK_END'): 2}
 # exception classes: py2lean's, and OSError (only raised, never caught, by the translated methods) -> `Other`
@@ -207,12 +221,12 @@ class ClassCtx:
                   and not t.orelse and not t.finalbody and len(t.handlers[0].body) == 1)
         if ok:
             a = body[0].handlers[0].body[0]
+            want = bp['new'] if '(' in bp['new'] else bp['new'] + '()'
             ok = (isinstance(a, ast.Assign) and len(a.targets) == 1 and is_field(a.targets[0])
-                  and isinstance(a.value, ast.Call) and isinstance(a.value.func, ast.Name)
-                  and a.value.func.id == bp['new'] and not a.value.args and not a.value.keywords)
+                  and ast.dump(a.value) == ast.dump(ast.parse(want, mode='eval').body))
         if not ok:
-            raise Unsupported(f, 'property %s is not in the accepted normal form (lazily created %s())'
-                              % (bp['name'], bp['new']))
+            raise Unsupported(f, 'property %s is not in the accepted normal form (lazily created %s)'
+                              % (bp['name'], bp['new'] if '(' in bp['new'] else bp['new'] + '()'))
 
     def mutates(self, pyname, seen=()):
         """syntactic: does the method (or one it calls on `self`) change the object state?"""
@@ -284,6 +298,10 @@ class Method:
         names = names[1:]
         if a.vararg:
             names.append(a.vararg.arg)
+        for fn in spec.get('fixed', {}):
+            if fn not in names:
+                raise Unsupported(self.f, 'the spec fixes a parameter %s the method does not have' % fn)
+        names = [n for n in names if n not in spec.get('fixed', {})]
         if list(spec['params']) != names:
             raise Unsupported(self.f, 'parameter list %s differs from the spec %s' % (names, list(spec['params'])))
         self.params = [(n, parse_type(spec['params'][n])) for n in names]
@@ -340,11 +358,11 @@ class Method:
         if isinstance(node, ast.Attribute) and _is_self(node.value, self.self_name):
             if bp and node.attr == bp['name']:
                 return ('field', bp['field'])
-            if self.cc.state.get(node.attr) == FILE:
+            if self.cc.state.get(node.attr) in (FILE, CFILE):
                 return ('field', node.attr)
         if isinstance(node, ast.Name) and node.id in env.get('loopfile', ()):
             return ('loopvar', node.id)
-        if isinstance(node, ast.Name) and self.vars.get(node.id) == FILE:
+        if isinstance(node, ast.Name) and self.vars.get(node.id) in (FILE, CFILE):
             return ('local', node.id)
         if isinstance(node, ast.Subscript) and isinstance(node.value, ast.Attribute) \
                 and _is_self(node.value.value, self.self_name) and self.cc.state.get(node.value.attr) == FILES \
@@ -358,26 +376,34 @@ class Method:
         if rc is None:
             return None
         m = node.func.attr
-        if m not in FILE_OPS:
+        OPS = CFILE_OPS if self.rc_type(rc) == CFILE else FILE_OPS
+        if m not in OPS:
             raise Unsupported(node, 'operation %s of a file object is not declared' % m)
         if node.keywords:
             raise Unsupported(node, 'keyword arguments of a file operation')
         saved = h.pure_self_reads
         args = [self.expr(a, h, env) for a in node.args]
         h.pure_self_reads = saved               # the arguments are evaluated inside the bound operation
-        for ptypes, rt, lean, mut in FILE_OPS[m]:
+        for ptypes, rt, lean, mut in OPS[m]:
             if len(ptypes) == len(args) and all(self.fits(at, pt) for (_, at), pt in zip(args, ptypes)):
                 terms = [self.coerce(e, at, pt, node) for (e, at), pt in zip(args, ptypes)]
-                if m == 'readline':
+                if m == 'readline' and OPS is FILE_OPS:
                     nl = self.cc.cls.get('nl')
                     if not nl:
                         raise Unsupported(node, 'readline: the spec declares no newline test')
                     arg = '(some %s)' % terms[0] if terms else 'none'
                     return rc, (lambda o, nl=nl, arg=arg: 'PyRtC18.FileObj.readline %s %s %s' % (nl, o, arg)), rt, mut
-                if m == 'seek' and len(terms) == 1:
+                if m == 'seek' and len(terms) == 1 and OPS is FILE_OPS:
                     terms = terms + ['(0 : Int)']
                 return rc, (lambda o, lean=lean, terms=terms: ' '.join([lean, o] + terms)), rt, mut
         raise Unsupported(node, 'arguments of file operation %s' % m)
+
+    def rc_type(self, rc):
+        if rc[0] == 'field':
+            return self.cc.state[rc[1]]
+        if rc[0] == 'local':
+            return self.vars[rc[1]]
+        return FILE
 
     def bind_op(self, rc, app_of, mut, h, env, node):
         """bind one operation on the file object `rc`; -> the variable holding its value"""
@@ -424,6 +450,14 @@ class Method:
             if isinstance(v, (bytes, str)) and len(v) == 0:
                 return '([] : %s)' % self.ty(SEQ), SEQ
             raise Unsupported(node, 'constant %r' % (v,))
+        if isinstance(node, ast.Name) and node.id in self.spec.get('fixed', {}):
+            return '(%d : Int)' % self.spec['fixed'][node.id], INT      # a parameter this variant fixes
+        if isinstance(node, ast.Name) and node.id in self.cc.cls.get('module_params', {}) \
+                and node.id not in self.vars:
+            # a module-level constant the class reads: a field of the object state (the tie says what it holds)
+            f = self.cc.cls['module_params'][node.id]
+            h.pure_self_reads = h.pure_self_reads | {f}
+            return 's.self.%s' % lean_field(f), self.cc.state[f]
         if isinstance(node, ast.Name):
             if node.id in env.get('bound', {}):
                 return env['bound'][node.id]
@@ -432,7 +466,7 @@ class Method:
             if node.id not in env['assigned'] and node.id not in self.spec['params']:
                 raise Unsupported(node, 'local %s may be unbound here' % node.id)
             t = self.vars[node.id]
-            if t == FILE or t == FILES and node.id not in self.spec['params']:
+            if t in (FILE, CFILE) or t == FILES and node.id not in self.spec['params']:
                 raise Unsupported(node, 'a file object used as a value')
             if t[0] == 'Option' and node.id in nn and t[1] in (INT,):
                 return '(PyRt.unwrap s.%s)' % self.field(node.id), t[1]
@@ -444,7 +478,7 @@ class Method:
             if _is_self(node.value, self.self_name):
                 if node.attr in self.cc.state:
                     t = self.cc.state[node.attr]
-                    if t in (FILE, FILES):
+                    if t in (FILE, FILES, CFILE):
                         raise Unsupported(node, 'a file object of the state used as a value')
                     h.pure_self_reads = h.pure_self_reads | {node.attr}
                     return 's.self.%s' % lean_field(node.attr), t
@@ -455,7 +489,7 @@ class Method:
             # attribute of a file object: `<file>.closed`
             rc = self.receiver(node.value, env)
             if rc is not None and node.attr in FILE_ATTRS:
-                rt, lean = FILE_ATTRS[node.attr]
+                rt, lean = (CFILE_ATTRS if self.rc_type(rc) == CFILE else FILE_ATTRS)[node.attr]
                 v = self.bind_op(rc, lambda o: '%s %s' % (lean, o), False, h, env, node)
                 return v, rt
             # `os.fstat(<fd>).st_size`
@@ -513,15 +547,20 @@ class Method:
                     h.pure_self_reads = h.pure_self_reads | {a.attr}
                     return '(PyRt.len s.self.%s)' % lean_field(a.attr), INT
                 e, t = self.expr(a, h, env)
-                if t not in (SEQ, PARTS):
+                if t not in (SEQ, PARTS, EBYTES):
                     raise Unsupported(node, 'len of %s' % (t,))
                 return '(PyRt.len %s)' % e, INT
             if f.id == 'isinstance' and len(node.args) == 2 and not node.keywords \
                     and isinstance(node.args[1], ast.Name):
                 rc = self.receiver(node.args[0], env)
                 kind = node.args[1].id
+                a0 = node.args[0]
+                if rc is None and isinstance(a0, ast.Attribute) and a0.attr == 'stream':
+                    rc0 = self.receiver(a0.value, env)       # `isinstance(<codec file>.stream, BytesIO)`
+                    if rc0 is not None and self.rc_type(rc0) == CFILE and kind == 'BytesIO':
+                        return self.bind_op(rc0, lambda o: 'PyRtC18.CFile.isMem %s' % o, False, h, env, node), BOOL
                 if rc is not None:
-                    if kind != 'BytesIO':
+                    if kind != 'BytesIO' or self.rc_type(rc) != FILE:
                         raise Unsupported(node, 'isinstance test of a file object against %s' % kind)
                     return self.bind_op(rc, lambda o: 'PyRtC18.FileObj.isMem %s' % o, False, h, env, node), BOOL
                 e, t = self.expr(node.args[0], h, env)
@@ -533,11 +572,61 @@ class Method:
                     e, t = self.expr(k.value, h, env)
                     if t not in (OPAQUE, ('Option', OPAQUE), ('Option', None)):
                         raise Unsupported(node, 'TemporaryFile(dir=%s)' % (t,))
-                return '(PyRtC18.FileObj.newReal : %s)' % self.ty(FILE), ('NewFile',)
+                return '(PyRtC18.FileObj.newReal : %s)' % self.ty(FILE), ('NewFile', FILE)
             if f.id == 'BytesIO' and not node.args and not node.keywords:
-                return '(PyRtC18.FileObj.newMem : %s)' % self.ty(FILE), ('NewFile',)
+                return '(PyRtC18.FileObj.newMem : %s)' % self.ty(FILE), ('NewFile', FILE)
+            if f.id == 'EncodedFile' and len(node.args) == 1 and len(node.keywords) == 1 \
+                    and node.keywords[0].arg == 'data_encoding' and isinstance(node.keywords[0].value, ast.Constant) \
+                    and node.keywords[0].value.value == 'utf-8':
+                inner, it = self.expr(node.args[0], h, env)
+                if it != ('NewFile', FILE):
+                    raise Unsupported(node, 'EncodedFile over something else than a fresh file')
+                kind = 'newReal' if 'newReal' in inner else 'newMem'
+                return '(PyRtC18.CFile.%s : PyRtC18.CFile)' % kind, ('NewFile', CFILE)
             raise Unsupported(node, 'call of %s' % f.id)
         if isinstance(f, ast.Attribute):
+            if isinstance(f.value, ast.Name) and f.value.id == 'operator' and f.attr == 'index' \
+                    and len(node.args) == 1 and not node.keywords and 'operator' not in self.vars:
+                e, t = self.expr(node.args[0], h, env)
+                if t != INT:
+                    raise Unsupported(node, 'operator.index of %s' % (t,))
+                return e, INT                   # the identity on a declared int
+            if f.attr == 'encode' and len(node.args) == 1 and not node.keywords \
+                    and isinstance(node.args[0], ast.Constant) and node.args[0].value == 'utf-8' \
+                    and self.cc.cls.get('seq_class') == 'str':
+                e, t = self.expr(f.value, h, env)
+                if t != SEQ:
+                    raise Unsupported(node, 'encode of %s' % (t,))
+                return '(C18.encode %s)' % e, EBYTES
+            if f.attr == 'decode' and len(node.args) == 1 and not node.keywords \
+                    and isinstance(node.args[0], ast.Constant) and node.args[0].value == 'utf-8' \
+                    and isinstance(f.value, ast.Call) and isinstance(f.value.func, ast.Attribute) \
+                    and f.value.func.attr == 'readline' and not f.value.keywords and len(f.value.args) <= 1:
+                # `<codec file>.readline([length]).decode('utf-8')`: one line of the codec reader, as text
+                rc = self.receiver(f.value.func.value, env)
+                if rc is not None and self.rc_type(rc) == CFILE:
+                    if f.value.args:
+                        saved = h.pure_self_reads
+                        a, at = self.expr(f.value.args[0], h, env)
+                        h.pure_self_reads = saved
+                        if not self.fits(at, ('Option', INT)):
+                            raise Unsupported(node, 'readline argument')
+                        arg = self.coerce(a, at, ('Option', INT), node)
+                    else:
+                        arg = 'none'
+                    return self.bind_op(rc, lambda o: 'PyRtC18.CFile.readlineText %s %s' % (o, arg), True,
+                                        h, env, node), SEQ
+            if f.attr == 'read' and isinstance(f.value, ast.Attribute) and f.value.attr == 'reader' \
+                    and len(node.args) == 2 and not node.keywords:
+                rc = self.receiver(f.value.value, env)       # `<codec file>.reader.read(size, chars)`
+                if rc is not None and self.rc_type(rc) == CFILE:
+                    saved = h.pure_self_reads
+                    (a, at), (b, bt) = self.expr(node.args[0], h, env), self.expr(node.args[1], h, env)
+                    h.pure_self_reads = saved
+                    if at != INT or bt != INT:
+                        raise Unsupported(node, 'reader.read arguments')
+                    return self.bind_op(rc, lambda o: 'PyRtC18.CFile.read %s %s %s' % (o, a, b), True,
+                                        h, env, node), SEQ
             if _is_self(f.value, self.self_name):
                 if self.cc.find(f.attr) is None:
                     raise Unsupported(node, 'no method %s' % f.attr)
@@ -593,17 +682,40 @@ class Method:
         return self.hoist(h, m, {attr}, node)
 
     def call_method(self, pyname, args, keywords, h, env, node, prop=False):
-        sp = self.cc.spec_of(pyname)
+        cname, fdef, is_prop = self.cc.find(pyname)
+        if is_prop != prop:
+            raise Unsupported(node, '%s: property / method mix-up' % pyname)
+        names = [a.arg for a in fdef.args.args][1:]
+        defaults0 = dict(zip(names[len(names) - len(fdef.args.defaults):], fdef.args.defaults)) \
+            if fdef.args.defaults else {}
+        bound0 = dict(zip(names, args))
+        for kw in keywords:
+            if kw.arg is not None:
+                bound0[kw.arg] = kw.value
+        sp = None
+        for cand in self.cc.cls['methods']:       # variants of one method: one that FIXES a parameter is picked when
+            if cand['py'] != pyname:              # the call passes exactly that constant (or omits it with that default)
+                continue
+            okv = True
+            for fn, fv in cand.get('fixed', {}).items():
+                a = bound0.get(fn, defaults0.get(fn))
+                if isinstance(a, ast.Attribute) and isinstance(a.value, ast.Name) and (a.value.id, a.attr) in CONSTS:
+                    a = ast.Constant(value=CONSTS[(a.value.id, a.attr)])
+                if not (isinstance(a, ast.Constant) and type(a.value) is int and a.value == fv):
+                    okv = False
+            if okv:
+                sp = cand
+                break
         if sp is None:
             raise Unsupported(node, 'method %s is not in the spec' % pyname)
         if sp['name'] not in env['emitted']:
             raise Unsupported(node, 'method %s is not translated (before this one)' % pyname)
-        cname, fdef, is_prop = self.cc.find(pyname)
-        if is_prop != prop:
-            raise Unsupported(node, '%s: property / method mix-up' % pyname)
-        if env['emitted'][sp['name']].get('lfuel'):
-            raise Unsupported(node, 'call of a method with a `while` loop')
-        names = [a.arg for a in fdef.args.args][1:]
+        callee_lfuel = bool(env['emitted'][sp['name']].get('lfuel'))
+        if callee_lfuel:
+            self.uses_while = True              # the caller hands its own loop fuel on
+        names = [n for n in names if n not in sp.get('fixed', {})]
+        args = [a for n, a in zip([a.arg for a in fdef.args.args][1:], args) if n not in sp.get('fixed', {})]
+        keywords = [kw for kw in keywords if kw.arg not in sp.get('fixed', {})]
         if fdef.args.vararg or len(args) > len(names):
             raise Unsupported(node, 'arguments of %s' % pyname)
         defaults = dict(zip(names[len(names) - len(fdef.args.defaults):], fdef.args.defaults)) \
@@ -631,7 +743,8 @@ class Method:
                 raise Unsupported(node, 'argument %s of %s: %s for %s' % (n, pyname, at, pt))
             terms.append(self.coerce(e, at, pt, node))
         h.pure_self_reads = saved
-        app = ' '.join(['%s.%s' % (self.cc.cls['lean_name'], sp['name']), 's.self'] + terms)
+        app = ' '.join(['%s.%s' % (self.cc.cls['lean_name'], sp['name'])] + (['lfuel'] if callee_lfuel else [])
+                       + ['s.self'] + terms)
         v = self.hoist(h, self.lift_self(app), self.cc.mutates(pyname), node)
         return v, parse_type(sp['result'])
 
@@ -650,8 +763,23 @@ class Method:
         """Lean Prop (decidable) of a Python condition"""
         if isinstance(node, ast.BoolOp):
             parts = []
+            truthy_before = set()
             for i, v in enumerate(node.values):
                 n0 = h.n
+                if isinstance(node.op, ast.And) and isinstance(v, ast.Compare) and len(v.ops) == 1 \
+                        and isinstance(v.ops[0], ast.NotIn) and isinstance(v.left, ast.Subscript) \
+                        and isinstance(v.left.value, ast.Name) and v.left.value.id in truthy_before \
+                        and isinstance(v.left.slice, ast.UnaryOp) and isinstance(v.left.slice.op, ast.USub) \
+                        and isinstance(v.left.slice.operand, ast.Constant) and v.left.slice.operand.value == 1 \
+                        and isinstance(v.comparators[0], ast.Constant) and isinstance(v.comparators[0].value, str) \
+                        and self.vars.get(v.left.value.id) == SEQ and self.cc.cls.get('seq_class') == 'str':
+                    # `x and x[-1] not in '<chars>'`: evaluated only for a non-empty x, so the index cannot raise
+                    x, _ = self.expr(v.left.value, h, env)
+                    cs = ', '.join('Char.ofNat %d' % ord(c) for c in v.comparators[0].value)
+                    parts.append('(PyRtC18.lastNotIn %s [%s] = true)' % (x, cs))
+                    continue
+                if isinstance(v, ast.Name) and self.vars.get(v.id) == SEQ:
+                    truthy_before.add(v.id)
                 parts.append(self.cond(v, h, env))
                 if i > 0 and h.n != n0:
                     raise Unsupported(v, 'an operation that can raise in a conditionally evaluated operand')
@@ -730,16 +858,16 @@ class Method:
             ast.copy_location(value, node)
             ast.fix_missing_locations(value)
         if isinstance(tgt, ast.Attribute) and _is_self(tgt.value, self.self_name) \
-                and self.cc.state.get(tgt.attr) in (FILE, FILES) and isinstance(value, ast.Name):
+                and self.cc.state.get(tgt.attr) in (FILE, FILES, CFILE) and isinstance(value, ast.Name):
             e, t = None, self.vars.get(value.id)
         else:
             e, t = self.expr(value, h, env)
         if isinstance(tgt, ast.Name):
             if tgt.id == self.self_name or tgt.id in env.get('bound', {}):
                 raise Unsupported(node, 'assignment to %s' % tgt.id)
-            if t == ('NewFile',):
-                t = FILE
-            elif t == FILE:
+            if t[0] == 'NewFile':
+                t = t[1]
+            elif t in (FILE, CFILE):
                 raise Unsupported(node, 'alias of a file object')
             vt = self.bind_local(tgt.id, t, node)
             upd = '%s := %s' % (self.field(tgt.id), self.coerce(e, t, vt, node))
@@ -749,11 +877,11 @@ class Method:
             if tgt.attr not in self.cc.state:
                 raise Unsupported(node, 'attribute %s is not declared in the spec' % tgt.attr)
             st = self.cc.state[tgt.attr]
-            if st == FILE:
+            if st in (FILE, CFILE):
                 # a file object moves from a local into the object: the local is dead afterwards (checked)
-                if not (isinstance(value, ast.Name) and self.vars.get(value.id) == FILE
+                if not (isinstance(value, ast.Name) and self.vars.get(value.id) == st
                         and value.id in env['assigned']):
-                    if t != ('NewFile',):
+                    if t != ('NewFile', st):
                         raise Unsupported(node, 'a file attribute assigned something else than a fresh local file')
                     src = e
                 else:
@@ -861,6 +989,12 @@ class Method:
                 out.append(self.wrap(h, 'PyRtC18.ret (fun s => %s)' % self.to_result(e, t, st)))
             elif isinstance(st, ast.Raise):
                 out.append('PyRtC18.raise %s' % self.exc_of(st))
+            elif isinstance(st, ast.If) and self.static_test(st.test) is not None:
+                # the test compares a parameter this variant FIXES with a constant: only the live branch exists
+                live = st.body if self.static_test(st.test) else st.orelse
+                out.append(self.block(live, env, in_loop))
+                if _terminates(live) and idx != len(stmts) - 1:
+                    raise Unsupported(stmts[idx + 1], 'unreachable statement')
             elif isinstance(st, ast.If):
                 h = Hoist()
                 c = self.cond(st.test, h, env)
@@ -923,6 +1057,20 @@ class Method:
         for t in reversed(out[:-1]):
             text = 'PyRtC18.seq\n%s\n%s' % (indent(self._p(t)), indent(self._p(text)))
         return text
+
+    def static_test(self, test):
+        fixed = self.spec.get('fixed', {})
+        if isinstance(test, ast.Compare) and len(test.ops) == 1 and isinstance(test.ops[0], (ast.Eq, ast.NotEq)) \
+                and isinstance(test.left, ast.Name) and test.left.id in fixed:
+            r = test.comparators[0]
+            v = None
+            if isinstance(r, ast.Constant) and type(r.value) is int:
+                v = r.value
+            elif isinstance(r, ast.Attribute) and isinstance(r.value, ast.Name) and (r.value.id, r.attr) in CONSTS:
+                v = CONSTS[(r.value.id, r.attr)]
+            if v is not None:
+                return (fixed[test.left.id] == v) == isinstance(test.ops[0], ast.Eq)
+        return None
 
     def _maybe_none_assigned(self, stmts):
         out = set()
@@ -1109,11 +1257,22 @@ def pOptUnit : P (Option Unit) := do let t ← pInt; pure (if t == 0 then none e
 def pFile : P (PyRtC18.FileObj UInt8) := do
   let d ← pBytes; let p ← pNat; let c ← pBool; let r ← pBool; let st ← pBool
   pure ⟨⟨d, p⟩, c, r, st⟩
+def pCU : P C18.CU := do let c ← pNat; let i ← pNat; pure (Char.ofNat c, i)
+def pChars : P (List Char) := pList (do let c ← pNat; pure (Char.ofNat c))
+def pCFile : P PyRtC18.CFile := do
+  let d ← pList pCU; let p ← pNat; let bb ← pList pCU; let cb ← pChars; let lb ← pList pChars
+  let c ← pBool; let r ← pBool
+  pure ⟨⟨d, p⟩, ⟨bb, cb, lb, false⟩, c, r⟩
 def eBytes (b : List UInt8) : List Int := (b.length : Int) :: b.map (fun x => (x.toNat : Int))
 def eBool (b : Bool) : List Int := [if b then 1 else 0]
 def eFile (o : PyRtC18.FileObj UInt8) : List Int :=
   if o.closed then [0, 0, 1] ++ eBool o.real else eBytes o.f.data ++ [(o.f.pos : Int), 0] ++ eBool o.real
 def eFiles (l : List (PyRtC18.FileObj UInt8)) : List Int := (l.length : Int) :: (l.map eFile).flatten
+def eChars (l : List Char) : List Int := (l.length : Int) :: l.map (fun c => (c.toNat : Int))
+def eCFile (o : PyRtC18.CFile) : List Int :=
+  if o.closed then [1] ++ eBool o.real
+  else [0] ++ eBool o.real ++ eBytes (C18.realBytes o.st.data) ++ [(o.st.pos : Int)] ++ eBytes (C18.realBytes o.rd.bytebuf)
+    ++ eChars o.rd.charbuf ++ [(o.rd.linebuf.length : Int)] ++ (o.rd.linebuf.map eChars).flatten
 def eOptInt : Option Int → List Int | none => [0] | some x => [1, x]
 def excCode : PyExc → Int
   | .KeyError => 0 | .ValueError => 1 | .TypeError => 2 | .IndexError => 3 | .ZeroDivisionError => 4
@@ -1126,6 +1285,8 @@ def parseInts (s : String) : Option (List Int) :=
   (s.trim.splitOn " ").filter (· ≠ "") |>.mapM String.toInt?
 '''
 
+_P_TEXT = {SEQ: 'pChars', CFILE: 'pCFile'}
+_E_TEXT = {SEQ: 'eChars', CFILE: 'eCFile'}
 _P = {INT: 'pInt', BOOL: 'pBool', SEQ: 'pBytes', ('Option', INT): 'pOptInt', FILE: 'pFile', FILES: 'pList pFile',
       OPAQUE: '(pure ())', ('Option', OPAQUE): 'pOptUnit'}
 _E = {INT: '(fun x => [x])', BOOL: 'eBool', SEQ: 'eBytes', ('Option', INT): 'eOptInt', FILE: 'eFile', FILES: 'eFiles',
@@ -1165,14 +1326,17 @@ def build_driver(specs, repo):
         cls = sp['cls']
         state = [(lean_field(a), parse_type(t)) for a, t in cls['state'].items()]
         params = [(mangle(p), parse_type(t)) for p, t in sp['params'].items()]
-        binds = ['let f_%s ← %s' % (f, _P[t]) for f, t in state] + ['let a_%s ← %s' % (p, _P[t]) for p, t in params]
+        text = cls.get('seq_class') == 'str'
+        P = {**_P, **_P_TEXT} if text else _P
+        E = {**_E, **_E_TEXT} if text else _E
+        binds = ['let f_%s ← %s' % (f, P[t]) for f, t in state] + ['let a_%s ← %s' % (p, P[t]) for p, t in params]
         full = 'Src.%s.%s.%s' % (sp['gen_file'], cls['lean_name'], sp['name'])
         targ = '' if cls.get('unit') else ' (β := UInt8)'
         call = '%s%s %s{ %s } %s' % (full, targ, ('%d ' % SELFTEST_FUEL) if lfuel[id(sp)] else '',
                                     ', '.join('%s := f_%s' % (f, f) for f, _ in state),
                                     ' '.join('a_' + p for p, _ in params))
-        enc = ' ++ '.join(['eExcept %s r.1' % _E[parse_type(sp['result'])]]
-                          + ['%s r.2.%s' % (_E[t], f) for f, t in state])
+        enc = ' ++ '.join(['eExcept %s r.1' % E[parse_type(sp['result'])]]
+                          + ['%s r.2.%s' % (E[t], f) for f, t in state])
         arms.append('  | %d :: t => (match (do %s; pure (let r := %s; %s) : P (List Int)).run t with\n'
                     '    | some (out, []) => showInts out\n    | _ => "bad-args")'
                     % (n, '; '.join(binds), call, enc))
@@ -1198,6 +1362,9 @@ def _enc(t, v, out):
         out.append(int(v))
     elif t == BOOL:
         out.append(1 if v else 0)
+    elif t == SEQ and isinstance(v, str):
+        out.append(len(v))
+        out.extend(ord(c) for c in v)
     elif t == SEQ:
         out.append(len(v))
         out.extend(v)
@@ -1214,6 +1381,28 @@ def _enc(t, v, out):
         out.append(len(v))
         for x in v:
             _enc(FILE, x, out)
+    elif t == CFILE:
+        def cus(text):
+            r = []
+            for ch in text:
+                for i in range(len(ch.encode('utf-8'))):
+                    r.append((ord(ch), i))
+            return r
+        def put_cus(l):
+            out.append(len(l))
+            for c, i in l:
+                out.extend([c, i])
+        def put_chars(x):
+            out.append(len(x))
+            out.extend(ord(c) for c in x)
+        put_cus(cus(v['text']))
+        out.append(v['pos'])
+        put_cus(v['bytebuf'])
+        put_chars(v['charbuf'])
+        out.append(len(v['linebuf']))
+        for l in v['linebuf']:
+            put_chars(l)
+        out.extend([int(v['closed']), int(v['real'])])
     else:
         raise ValueError(t)
 
@@ -1241,6 +1430,48 @@ def _mk_file(v):
     return f
 
 
+def _mk_cfile(v):
+    import codecs
+    import io
+    import tempfile
+    data = v['text'].encode('utf-8')
+    if v['real']:
+        st = tempfile.TemporaryFile()
+        st.write(data)
+    else:
+        st = io.BytesIO(data)
+    st.seek(v['pos'])
+    ef = codecs.EncodedFile(st, data_encoding='utf-8')
+    ef.reader.bytebuffer = b''.join(chr(c).encode('utf-8')[i:i + 1] for c, i in v['bytebuf'])
+    ef.reader.charbuffer = v['charbuf']
+    ef.reader.linebuffer = list(v['linebuf']) if v['linebuf'] else None
+    if v['closed']:
+        ef.close()
+    return ef
+
+
+def _obs_cfile(ef):
+    import io
+    st = ef.stream
+    real = not isinstance(st, io.BytesIO)
+    if st.closed:
+        return [1, int(real)]
+    pos = st.tell()
+    if real:
+        st.seek(0)
+        data = st.read()
+        st.seek(pos)
+    else:
+        data = st.getvalue()
+    bb = ef.reader.bytebuffer
+    cb = ef.reader.charbuffer or ''
+    lb = ef.reader.linebuffer or []
+    out = [0, int(real), len(data)] + list(data) + [pos, len(bb)] + list(bb) + [len(cb)] + [ord(c) for c in cb] + [len(lb)]
+    for l in lb:
+        out += [len(l)] + [ord(c) for c in l]
+    return out
+
+
 def _obs_file(f):
     import io
     real = not isinstance(f, io.BytesIO)
@@ -1257,6 +1488,10 @@ def _obs_file(f):
 
 
 def _canon_state(t, v):
+    if t == CFILE:
+        return _obs_cfile(v)
+    if t == SEQ and isinstance(v, str):
+        return [len(v)] + [ord(c) for c in v]
     if t == FILE:
         return _obs_file(v)
     if t == FILES:
@@ -1284,6 +1519,8 @@ def _canon_result(t, v):
         if type(v) is not bool:
             raise ValueError('not a bool: %r' % (v,))
         return [int(v)]
+    if t == SEQ and type(v) is str:
+        return [len(v)] + [ord(c) for c in v]
     if t == SEQ:
         if type(v) is not bytes:
             raise ValueError('not bytes: %r' % (v,))
@@ -1303,7 +1540,15 @@ def call_real(sp, case):
     for a, tt in sp['cls']['state'].items():
         t = parse_type(tt)
         v = case['self'][a]
-        if t == FILE:
+        if t == CFILE:
+            v = _mk_cfile(v)
+        elif a in sp['cls'].get('module_params', {}).values():
+            for gname, fld in sp['cls']['module_params'].items():
+                if fld == a:
+                    setattr(mod, gname, v)          # the module constant the class reads
+            state[a] = t
+            continue
+        elif t == FILE:
             v = _mk_file(v)
         elif t == FILES:
             v = tuple(_mk_file(x) for x in v)
@@ -1313,10 +1558,11 @@ def call_real(sp, case):
             v = None
         setattr(obj, a, v)
         state[a] = t
+    text = sp['cls'].get('seq_class') == 'str'
     args = []
     for p, tt in sp['params'].items():
         v = case['args'][p]
-        if parse_type(tt) == SEQ:
+        if parse_type(tt) == SEQ and not text:
             v = bytes(v)
         args.append(v)
     got = py2lean_find_attr(pycls, sp['py'])
@@ -1329,9 +1575,13 @@ def call_real(sp, case):
         res = ('exc', type(e).__name__)
     after = []
     for a, t in state.items():
+        if a in sp['cls'].get('module_params', {}).values():
+            gname = [g for g, f in sp['cls']['module_params'].items() if f == a][0]
+            after += _canon_state(t, getattr(mod, gname))
+            continue
         after += _canon_state(t, getattr(obj, a))
     for a, t in state.items():      # release the temporary files
-        v = getattr(obj, a)
+        v = getattr(obj, a, None)
         for f in (v if isinstance(v, tuple) else [v]):
             if hasattr(f, 'close'):
                 try:
@@ -1372,7 +1622,27 @@ def cases_for(sp, rng, quick):
     cls = sp['cls']['name']
     n = 120 if quick else 700
     for _ in range(n):
-        if cls == 'MultiFileReader':
+        if cls == 'SpooledStringIO':
+            alpha = ['a', 'b', '\n', '\r', '\x0c', '\u00e9', '\u65e5', '\U0001f600', '\u2028']
+            text = ''.join(rng.choice(alpha) for _ in range(rng.choice([0, 1, 2, 3, 4, 6, 8])))
+            k = rng.randint(0, len(text))
+            pos = len(text[:k].encode('utf-8'))
+            r = rng.random()
+            if r < 0.06:
+                pos = len(text.encode('utf-8')) + 1
+            elif r < 0.12 and pos > 0:
+                pos -= 1            # possibly inside a character: UnicodeDecodeError / not specified
+            cb, lb, bb = '', [], []
+            r = rng.random()
+            if r < 0.25:
+                cb = ''.join(rng.choice(alpha) for _ in range(rng.randint(1, 3)))
+            elif r < 0.33:
+                lb = [''.join(rng.choice(['a', 'b']) for _ in range(rng.randint(1, 2))) + '\n' for _ in range(2)]
+            st = {'_buffer': {'text': text, 'pos': pos, 'bytebuf': bb, 'charbuf': cb, 'linebuf': lb,
+                              'closed': rng.random() < 0.05, 'real': rng.random() < 0.5},
+                  '_tell': rng.randint(0, 6), '_max_size': rng.randint(0, 14), '_dir': None,
+                  'chunk': rng.choice([1, 2, 3, 5, 21333])}
+        elif cls == 'MultiFileReader':
             files = [_rand_file(rng) for _ in range(rng.choice([0, 1, 2, 2, 3, 4]))]
             st = {'_fileobjs': files, '_index': rng.choice([0, 0, 0, 1, 2, len(files), len(files) + 1, -1]),
                   '_joiner': []}
@@ -1382,16 +1652,22 @@ def cases_for(sp, rng, quick):
         for p, tt in sp['params'].items():
             t = parse_type(tt)
             if t == INT:
-                if p in ('mode', 'whence'):
+                if cls == 'SpooledStringIO':
+                    v = rng.choice([0, 0, 1, 1, 2, 3]) if p == 'mode' else rng.randint(-1, 9)
+                elif p in ('mode', 'whence'):
                     v = rng.choice([0, 0, 0, 1, 1, 2, 2, 3, -1])
                 elif p == 'offset':
                     v = rng.choice([0, 0, 0, 1, -1])
                 else:
                     v = rng.randint(-3, 12)
+            elif t == ('Option', INT) and cls == 'SpooledStringIO':
+                v = rng.choice([None, None, None, None, None, 0, 3])
             elif t == ('Option', INT):
                 v = rng.choice([None, None, 0, 1, 2, 3, 5, 9, -1, -2, rng.randint(0, 14)])
             elif t == ('Option', OPAQUE):
                 v = None
+            elif t == SEQ and cls == 'SpooledStringIO':
+                v = ''.join(rng.choice(['a', '\n', '\u00e9', '\u65e5', '\U0001f600']) for _ in range(rng.choice([0, 1, 2, 4])))
             elif t == SEQ:
                 v = _rand_bytes(rng)
             else:
@@ -1458,6 +1734,8 @@ def selftest(pids, quick=False, seed=0, verbose=True, repo=None):
             r['unspecified'] += 1
             continue
         r['compared'] += 1
+        if val[:2] == [0, 7] and sp['cls'].get('seq_class') == 'str':
+            continue        # an unmodelled exception class on both sides (UnicodeDecodeError …): the state is not specified
         try:
             if kind == 'exc':
                 r['python_raises'] += 1
